@@ -140,8 +140,8 @@ def outline_state(ctx):
         cn_ = [n for n, cc in W.calls(("self.change", "framer.change", "self.framer.change", "main.framer.change")) if cc is c]
         at = cn_[0] if cn_ else None
         args = tuple(src(W.sym(bound[p], at)) if at is not None and p in bound else src(bound.get(p)) for p in pnames)
-        if q == FR + "Framer.reactivate":
-            ok = args == ("self.active.outline", "self.active.human") and dotted(c.func.value) == "self"
+        if q.startswith(FR + "Framer.") and args == ("self.active.outline", "self.active.human"):
+            ok = dotted(c.func.value) == "self"        # the full outline of the active frame, from any Framer method (reactivate or inlined)
         elif q == "ioflo/base/acting.py:Suspender.action":
             ok = args == ("main.head", "main.headHuman") and src(W.sym(c.func.value, at)) in ("framer", "main.framer")
         else:
@@ -152,7 +152,9 @@ def outline_state(ctx):
     act = ctx.fn("framing", "Framer.activate")
     A = FuncView(ctx, act)
     st = A.need(A.stores("self.active"), "self.active = ... in activate")
-    ra = A.need(A.call_nodes("self.reactivate"), "self.reactivate() in activate")
+    ra = A.call_nodes("self.reactivate") or \
+        [n for n, c in A.calls("self.change") if [src(a) for a in c.args] == ["self.active.outline", "self.active.human"]]
+    A.need(ra, "self.reactivate() (or its body) in activate")
     ctx.check(A.dominated(ra, st) and A.always_then([A.cfg.entry], ra) and
               isinstance(st[0].ast, ast.Assign) and dotted(st[0].ast.value) == "active",
               "T3-activate", act, "activate: self.active = active; self.reactivate()",
